@@ -393,9 +393,7 @@ class Ctx:
         if rf is not None:
             region = z3.simplify(V.zbool(rf(self)))
         ob = self._solve(name, kind, hyp, cz, region, model_terms)
-        if assume_after and ob.status != 'discharged':
-            pass
-        if assume_after:
+        if assume_after and ob.status == 'discharged':      # a failed obligation is not assumed (it would make every later one vacuous)
             if self.guards:
                 self.assume_raw(z3.Implies(z3.And(*[V.zbool(g) for g in self.guards]), cz))
             else:
